@@ -596,6 +596,8 @@ def weave_fn(src, path, relfile, spec):
         return w
     if spec.get("external_body"):
         w.add("#[verifier::external_body]\n", ("gen", "external_body", 0))
+    for a in spec.get("attrs", []):
+        w.add(a + "\n", ("gen", "attr", 0))
     w.add(sig.rstrip() + "\n", ("repo", relfile, sig_line))
     if spec.get("contract"):
         w.add(spec["contract"][0].rstrip("\n") + "\n", ("overlay", spec.get("contract_file", spec["overlay_file"]), spec["contract"][1]))
@@ -799,6 +801,8 @@ def weave_lifted(src, path, relfile, spec, reader_src):
     sig_line = src.line_of(src.toks[kw][1])
     # emit f_body
     w.add(pre, ("repo", relfile, src.line_of(src.toks[s][1])))
+    for a in spec.get("attrs", []):
+        w.add(a + "\n", ("gen", "attr", 0))
     w.add(named(body_sig, spec.get("body_ret")).rstrip() + "\n", ("repo", relfile, sig_line))
     if spec.get("body_contract"):
         w.add(spec["body_contract"][0].rstrip("\n") + "\n", ("overlay", spec["overlay_file"], spec["body_contract"][1]))
